@@ -117,7 +117,10 @@ class ArgparseTable(Table):
         if _is_kwargs(name):
             return [canon_typ("Optional[dict]")]
         if self.expressible(t):
-            return [canon_typ(t)]
+            acc = [canon_typ(t)]
+            if canon_default(p.get("default", ABSENT))[0] == "none" and not t.startswith("Optional["):
+                acc.append(canon_typ("Optional[{}]".format(t)))  # None default <-> not required <-> Optional
+            return acc
         # fallback to str (possibly Optional when not required), or the scalar type that
         # argparse's own `type=` is inferred from (the type of the default)
         acc = [canon_typ("str"), canon_typ("Optional[str]")]
